@@ -474,11 +474,137 @@ def run_loopstate(env, rec, case):
                 pass
 
 
+# ---------------------------------------------------------------------------------------
+# In-place rebinding: tags that assign into the current top layer ({% firstof .. as v %}, {% now .. as v %}, {% url .. as v %},
+# {% cycle .. as v %}) AFTER a component tag.  The component is rendered later, from a snapshot taken at the tag: what its
+# template (django mode) and its fill content (both modes) print for v must be the value v had AT THE TAG.
+def gen_rebind(rng):
+    def body(depth, budget):
+        out = []
+        for _ in range(rng.randint(1, 4)):
+            if budget[0] <= 0:
+                break
+            budget[0] -= 1
+            r = rng.random()
+            if r < 0.30:
+                out.append(["assign", f"a{budget[0]}"])
+            elif r < 0.60:
+                out.append(["tag"])
+            elif r < 0.70:
+                out.append(["show"])
+            elif depth < 3:
+                k = rng.choice(["with", "if", "for"])
+                out.append([k, body(depth + 1, budget)] if k != "for" else ["for", rng.randint(1, 2), body(depth + 1, budget)])
+        return out
+
+    while True:
+        ast = body(0, [rng.randint(4, 10)])
+        flat = json.dumps(ast)
+        if '"tag"' in flat and '"assign"' in flat:
+            return {"kind": "rebind", "ast": ast, "host": rng.choice(["page", "component", "component", "component-in-component"]), "mode": rng.choice(["django", "isolated"]), "preset": rng.random() < 0.4}
+
+
+def run_rebind(env, rec, case):
+    env.n += 1
+    n = env.n
+    mode = case["mode"]
+    inner_name, host_name, host2_name = f"rb{n}_inner", f"rb{n}_host", f"rb{n}_host2"
+    tag_src = '{% component "' + inner_name + '" %}F(v={{ v }}){% endcomponent %}'
+    cnt = [0]
+
+    def ser(nodes):
+        t = ""
+        for nd in nodes:
+            k = nd[0]
+            if k == "assign":
+                t += '{% firstof "' + nd[1] + '" as v %}'
+            elif k == "tag":
+                t += tag_src
+            elif k == "show":
+                t += "[v={{ v }}]"
+            elif k == "with":
+                cnt[0] += 1
+                t += '{% with w' + str(cnt[0]) + '="1" %}' + ser(nd[1]) + "{% endwith %}"
+            elif k == "if":
+                t += "{% if True %}" + ser(nd[1]) + "{% endif %}"
+            else:
+                cnt[0] += 1
+                t += "{% for i" + str(cnt[0]) + ' in "' + "pq"[: nd[1]] + '" %}' + ser(nd[2]) + "{% endfor %}"
+        return t
+
+    def ev(nodes, layers, out):
+        for nd in nodes:
+            k = nd[0]
+            if k == "assign":
+                layers[-1]["v"] = nd[1]
+            elif k in ("tag", "show"):
+                val = next((ly["v"] for ly in reversed(layers) if "v" in ly), "")
+                out.append(f"[v={val}]" if k == "show" else (f"I(v={val})" if mode == "django" else "I()") + f"F(v={val})")
+            elif k == "with":
+                ev(nd[1], layers + [{}], out)
+            elif k == "if":
+                ev(nd[1], layers, out)
+            else:
+                ly = {}  # ForNode pushes ONE layer for the whole loop
+                for _ in range(nd[1]):
+                    ev(nd[2], layers + [ly], out)
+
+    src = ser(case["ast"])
+    inner_t = ("I(v={{ v }})" if mode == "django" else "I()") + '{% slot "s" default %}D{% endslot %}'
+    names = []
+    try:
+        Inner = type(f"Rb{n}Inner", (env.Component,), {"template": inner_t})
+        env.registry.register(inner_name, Inner)
+        names.append(inner_name)
+        page = src
+        page_ctx = {"v": "P.v"} if case["preset"] else {}
+        layers = [dict(page_ctx)]
+        if case["host"] != "page":
+            # the host component gets v as data (preset) - in isolated mode the page's v is not visible in the host anyway
+            data = {"v": "H.v"} if case["preset"] else {}
+            Host = type(f"Rb{n}Host", (env.Component,), {"template": "H[" + src + "]", "get_context_data": (lambda d: (lambda self, **kw: dict(d)))(data)})
+            env.registry.register(host_name, Host)
+            names.append(host_name)
+            page = '{% component "' + host_name + '" / %}'
+            layers = ([dict(page_ctx)] if mode == "django" else []) + [dict(data)]
+            if case["host"] == "component-in-component":
+                Host2 = type(f"Rb{n}Host2", (env.Component,), {"template": "G[" + page + "]"})
+                env.registry.register(host2_name, Host2)
+                names.append(host2_name)
+                page = '{% component "' + host2_name + '" / %}'
+        out = []
+        ev(case["ast"], layers + [{}] if case["host"] != "page" else layers, out)
+        expected = "".join(out)
+        if case["host"] != "page":
+            expected = "H[" + expected + "]"
+        if case["host"] == "component-in-component":
+            expected = "G[" + expected + "]"
+        with env.override_settings(COMPONENTS={"context_behavior": mode, "autodiscover": False}):
+            try:
+                raw = env.Template(page).render(env.Context(dict(page_ctx)))
+            except Exception as e:  # noqa: BLE001
+                rec.violation("rebind-render-raised-" + type(e).__name__, case, {"what": str(e)[:300], "template": src})
+                return True
+        got = e1run.normalise(raw)
+        rec.observe("renders-compared")
+        rec.count("rebind_renders")
+        if got != expected:
+            rec.violation("value-rebound-after-the-tag-is-seen-by-the-component", case, {"what": f"expected {expected!r} got {got!r}", "template": src, "inner": inner_t})
+        return True
+    finally:
+        for nm in names:
+            try:
+                env.registry.unregister(nm)
+            except Exception:  # noqa: BLE001
+                pass
+
+
 def plan(tier, seed):
     n = 12000 if tier == "quick" else 400000
     nshard = 15 if tier == "quick" else 32
     shards = [{"name": f"gen_{i:02d}", "n": n // nshard, "idx": i} for i in range(nshard)]
     shards.append({"name": "loopstate", "kind": "loopstate", "n": 1500 if tier == "quick" else 40000, "idx": 99})
+    shards.append({"name": "rebind", "kind": "rebind", "n": 1500 if tier == "quick" else 40000, "idx": 98})
     return shards
 
 
@@ -491,6 +617,14 @@ def run_shard(spec, rec):
             case = gen_loopstate(rng)
             nt = run_loopstate(env, rec, case)
             rec.case(("loopstate", json.dumps(case, sort_keys=True)), nontrivial=bool(nt) and len(case["outer"]) >= 2)
+        return
+    if spec.get("kind") == "rebind":
+        rec.require("renders-compared")
+        rng = random.Random(f"{spec['seed']}-c03-rebind")
+        for i in range(spec["n"]):
+            case = gen_rebind(rng)
+            nt = run_rebind(env, rec, case)
+            rec.case(("rebind", json.dumps(case, sort_keys=True)), nontrivial=bool(nt) and case["host"] != "page")
         return
     rec.require("renders-compared", "context-snapshots-compared")
     rng = random.Random(f"{spec['seed']}-c03-{spec['idx']}")
@@ -541,5 +675,8 @@ def replay(case, rec):
     rec.observe("context-snapshots-compared")
     if case.get("kind") == "loopstate":
         run_loopstate(env, rec, case)
+        return
+    if case.get("kind") == "rebind":
+        run_rebind(env, rec, case)
         return
     check_program(env, rec, case["program"], case.get("seed"), do_shrink=False)
